@@ -415,6 +415,58 @@ class Function:
         return path
 
     # ---- anchors --------------------------------------------------------------------
+    def sig_anchors(self, n, depth=2):
+        """anchors for frozen guard signatures: names (fields, callees, params, macros, enum
+        constants, globals) through local expansion, but integer constants only when they
+        appear directly in the expression (incidental constants inside the definitions of
+        locals would make the signature depend on how a value is computed)."""
+        full = self.anchors(n, depth)
+        direct = self.anchors(n, 0)
+        return {a for a in full if not a.startswith("k:")} | {a for a in direct if a.startswith("k:")}
+
+    def shape(self, n, depth=2):
+        """canonical structure of an expression: operators kept, commutative operands sorted,
+        casts dropped, single-definition locals expanded, other locals abstracted to `l`,
+        constants to their value, fields/callees/params by global name.  No local name, no
+        line number: two spellings of the same test have the same shape."""
+        n = strip_casts(self.resolve_x(n)) if n is not None else None
+        if n is None:
+            return "?"
+        k = n.get("k")
+        if "v" in n and k in ("int", "bin", "un", "cond", "sizeof", "cast"):
+            return str(n["v"])
+        if k == "ref":
+            rk = n.get("rk")
+            if rk == "p":
+                return "p%d" % n["pi"]
+            if rk in ("l", "sl"):
+                if depth > 0:
+                    d = self.single_def(n["n"])
+                    if d is not None:
+                        return self.shape(d, depth - 1)
+                return "l"
+            if rk == "e":
+                return str(n.get("v"))
+            return rk + ":" + n["n"]
+        if k == "mem":
+            return self.shape(n["b"], depth) + "." + n["f"]
+        if k == "idx":
+            return self.shape(n["b"], depth) + "[" + self.shape(n["i"], depth) + "]"
+        if k == "call":
+            return (n.get("c") or "indirect") + "(" + ",".join(self.shape(a, depth) for a in n.get("a", [])) + ")"
+        if k == "bin":
+            a, b = self.shape(n["lhs"], depth), self.shape(n["rhs"], depth)
+            if n["op"] in ("+", "*", "&", "|", "^", "==", "!=", "&&", "||"):
+                a, b = sorted((a, b))
+            return "(" + a + n["op"] + b + ")"
+        if k == "un":
+            return n.get("op", "?") + self.shape(n["e"], depth)
+        if k == "cond":
+            return "(" + self.shape(n.get("c"), depth) + "?" + self.shape(n.get("t"), depth) + ":" + self.shape(n.get("f"), depth) + ")"
+        if k == "sizeof":
+            return "sizeof"
+        return k or "?"
+
     def anchors(self, n, depth=2, _seen=None):
         """global-name anchors of an expression: fields, callees, params (by index),
         constants by value, globals, enum constants; locals are expanded through all their
